@@ -78,7 +78,7 @@ def _life(size, cb, n1, x2, a2, s2, x3, a3, x4, a4, t, _twin):
         w.close(code)
 
 
-ALPHA_F = ("apply", "rel", "fail", "cancel", "cgroup", "call", "cbrel", "flush", "nop")
+ALPHA_F = ("apply", "rel", "fail", "cancel", "cgroup", "call", "cbrel", "flush", "flushF", "nop")
 NOPF = len(ALPHA_F) - 1
 
 
@@ -191,10 +191,10 @@ def families(tier):
                        twin_pre=["cb == 3", "s2 == 2", "x2 == 3", "x3 == 1"], twin_args=[2, 3, 2, 3, 1, 2, 1, 0, 5]))
     basef = ["size >= 0", "2 <= cb <= 3", "n1 == 2", "0 <= x2 < %d" % NOPF, "a2 >= -1", "0 <= x3 <= %d" % NOPF, "a3 >= -1", "t >= 0"]
     if not thorough:
-        pref = basef + ["x4 == %d" % NOPF, "a4 == 0", "cb == 3", "t >= 4", "x3 == 1 or x3 == 3 or x3 == 6 or x3 == 7"]
+        pref = basef + ["x4 == %d or (x2 == 2 and x3 == 3 and x4 == 8)" % NOPF, "a4 == 0", "cb == 3", "t >= 4", "x3 == 1 or x3 == 3 or x3 == 6 or x3 == 7 or x3 == 8"]
         partsf = parts_product(x2=range(NOPF))
     else:
-        pref = basef + ["x4 == 6 or x4 == 7 or x4 == %d" % NOPF, "a4 >= -1", "a4 <= 1", "cb == 3"]
+        pref = basef + ["x4 == 6 or x4 == 7 or x4 == 8 or x4 == %d" % NOPF, "a4 >= -1", "a4 <= 1", "cb == 3"]
         partsf = parts_product(x2=range(NOPF), x3=range(NOPF + 1))
     fams.append(Family(name="lifeflush", fn="tpl_lifeflush", params=P, pre=pref, parts=partsf,
                        twin_pre=["x2 == 3", "x3 == 7"], twin_args=[2, 3, 2, 3, 0, 7, 0, NOPF, 0, 5]))
